@@ -67,7 +67,16 @@ fn serialize_object(
     bytes.push(markers::OBJECT_MARKER);
 
     for (name, value) in properties {
-        // TODO: Add check that property name isn't greater than a u16
+        if name.len() > (u16::max_value() as usize) {
+            return Err(Amf0SerializationError::NormalStringTooLong);
+        }
+
+        // A zero length name is how the end of an object is marked, so it can't be used as a
+        // property name (it would not be readable by any AMF0 deserializer, including ours)
+        if name.is_empty() {
+            return Err(Amf0SerializationError::EmptyObjectPropertyName);
+        }
+
         bytes.write_u16::<BigEndian>(name.len() as u16)?;
         bytes.extend(name.as_bytes());
         serialize_value(&value, bytes)?;
